@@ -838,8 +838,51 @@ def file_slice(ck, maxlen, seed):
                 if got[:len(want)] != want if want[0] == 'ok' else got[0] != want[0]:
                     ck.violation('C14:file:%s' % fmt, 'do_conf_file differs from do_conf_str on %r: %r vs %r' % (text, got, want),
                                  dict(rep, expected=repr(want), observed=repr(got)))
+    # encoding: (the template is read and the output written in the encoding the user names): one fresh rendering per template,
+    # format and encoding, for every template the encoding can express
+    enc_n = enc_nonascii = 0
+    b = 'w'
+    for enc, a in (('iso-8859-1', 'vé'), ('utf-16-le', 'vé'), ('koi8-r', 'vж')):
+        for text, tup in TEMPLATES:
+            if len(tup) > maxlen:
+                break
+            try:
+                raw = text.encode(enc)
+                a.encode(enc)
+            except UnicodeEncodeError:
+                continue
+            with open(src, 'wb') as f:
+                f.write(raw)
+            lines = split_lines(text)
+            for fmt in FORMATS:
+                if self_referential(text, fmt, a, b) and HANG_CLASS_LIVE:
+                    continue
+                exp = run_real(lines, cd_for(a, b), fmt)
+                if exp[0] != 'ok':
+                    continue
+                if os.path.exists(dst):
+                    os.unlink(dst)
+                enc_n += 1
+                rep = {'part': 'file', 'template': text, 'format': fmt, 'data': {'A': a, 'B': b}, 'encoding': enc}
+                signal.alarm(HANG_S)
+                try:
+                    do_conf_file(src, dst, cd_for(a, b), fmt, encoding=enc)
+                    with open(dst, 'rb') as f:
+                        got = f.read()
+                except Hang:
+                    got = 'hang'
+                except Exception as e:
+                    got = '%s: %s' % (type(e).__name__, e)
+                finally:
+                    signal.alarm(0)
+                want = ''.join(exp[1]).encode(enc)
+                enc_nonascii += want != ''.join(exp[1]).encode('utf-8')
+                if got != want:
+                    ck.violation('C14:file:encoding:%s' % enc, 'do_conf_file(encoding=%r) on %r: output %r, expected the rendering in that encoding %r'
+                                 % (enc, text, got, want), dict(rep, expected=repr(want), observed=repr(got)))
+    ck.require(enc_nonascii > 50 or ck.n_viol > 0, 'file slice: encodings hardly ever mattered')
     ck.require(over > 0, 'file slice never rendered over an existing output')
-    ck.part('file_slice', cases=n, rendered_over_previous_output=over, max_fragments=maxlen, outputs_with_crlf=crlf, data_sets=[list(map(repr, p)) for p in picks])
+    ck.part('file_slice', cases=n, other_encodings=enc_n, rendered_over_previous_output=over, max_fragments=maxlen, outputs_with_crlf=crlf, data_sets=[list(map(repr, p)) for p in picks])
     ck.require(crlf > 0 or ck.n_viol > 0, 'file slice never produced a CRLF output')
     return n
 
@@ -1117,7 +1160,8 @@ def replay(ck):
         root = scratch_root()
         text, fmt, a, b = d['template'], d['format'], d['data']['A'], d['data']['B']
         src, dst = os.path.join(root, 't.in'), os.path.join(root, 't.out')
-        open(src, 'wb').write(text.encode('utf-8'))
+        enc = d.get('encoding', 'utf-8')
+        open(src, 'wb').write(text.encode(enc))
         exp = run_real(split_lines(text), cd_for(a, b), fmt)
         for (a0, b0) in d.get('earlier_data', []):
             try:
@@ -1126,11 +1170,11 @@ def replay(ck):
                 if os.path.exists(dst):
                     os.unlink(dst)
         try:
-            do_conf_file(src, dst, cd_for(a, b), fmt)
+            do_conf_file(src, dst, cd_for(a, b), fmt, encoding=enc)
             got = open(dst, 'rb').read()
         except MesonException as e:
             got = 'error: %s' % e
-        want = ''.join(exp[1]).encode('utf-8') if exp[0] == 'ok' else 'error: ' + exp[1]
+        want = ''.join(exp[1]).encode(enc) if exp[0] == 'ok' else 'error: ' + exp[1]
         print('expected (do_conf_str):', repr(want))
         print('observed (do_conf_file):', repr(got))
         if (exp[0] == 'ok') != isinstance(got, bytes) or (exp[0] == 'ok' and got != want):
